@@ -24,6 +24,10 @@ def run(ctx):
                       "once per token and recorded positions are applied to the vector as scanned (E-EDITLIST)")
     ctx.rule("R17-6", "`alias n=v2` after `alias n=v1` replaces the value: Shell::add_alias stores with an unconditional "
                       "HashMap::insert")
+    ctx.rule("R17-7", "the value runs as if it had been typed there: text taken from the alias table reaches the token vector "
+                      "only as the tokens parse_line makes of it (operators, quotes and several words inside the value "
+                      "act) - never assigned or inserted as one ready-made word, on no path (a `simple value` shortcut "
+                      "turns `alias su='sort|uniq'` into a command named sort|uniq)")
     for crate in ctx.crates:
         from .c15 import overwrite_rule
         overwrite_rule(ctx, crate, "R17-6", "shell::Shell::add_alias", "aliases")
@@ -37,6 +41,7 @@ def run(ctx):
         ctx.analysed(b)
         head_rule(ctx, crate, b)
         once_rule(ctx, crate, b)
+        retokenized_rule(ctx, crate, b)
         table_rule(ctx, crate)
         res = etag.run_sites(ctx, "R17-1", crate, fn_filter=lambda p: p == "shell::expand_alias")
         ctx.floor("R17-1", crate, "operator inspections in expand_alias", len(res), 1)
@@ -302,3 +307,30 @@ def name_agreement_rule(ctx, crate):
                key="R17-4|name-shape|%s" % n, crate=crate.kind,
                detail=None if ok_h else "`alias %s='\"a b\" c'` stores `a b`: the tokenizer (%s, %r) strips the outer quotes, "
                "the builtin sees a value starting with a quote and unquotes again" % (n, where, head_pat))
+
+
+def retokenized_rule(ctx, crate, b):
+    from .c13 import token_writes
+    tok, writes = token_writes(b)
+    if not ctx.require(tok is not None and writes, "R17-7", "R17-7|%s|writes" % b.path,
+                       "no write to the token vector found in expand_alias", b.path):
+        return
+    is_src = lambda z: z[0] == "call" and last_seg(z[1]) in ("get_alias_content", "get") and \
+        ("alias" in z[1] or "aliases" in render(z))
+    is_tok = lambda z: z[0] == "call" and last_seg(z[1]) in ("parse_line", "line_to_plain_tokens")
+    n_via, bad = 0, []
+    for bb, kind, text_e, tag_e in writes:
+        e = text_e
+        raw = flow.backward(b, e, is_src, stop=is_tok)
+        via = flow.backward(b, e, is_tok)
+        if raw is not None:
+            bad.append((bb, kind))
+        elif via is not None:
+            n_via += 1
+    ok = not bad and n_via >= 1
+    ctx.ob("R17-7", b.path, "alias values enter the token vector through parse_line only (%d write(s) of tokenized words, %d "
+                            "write(s) in all)" % (n_via, len(writes)), ok,
+           key="R17-7|%s|retokenized" % b.path, where=b.loc((bad or [(0, "")])[0][0]), crate=crate.kind,
+           detail=None if ok else ("%s of text read from the alias table without tokenizing it: a value holding `|`, quotes or "
+                                   "several words becomes one literal word" % ", ".join(sorted({k for _, k in bad}))
+                                   if bad else "no write of parse_line's tokens found"))
